@@ -803,7 +803,7 @@ LEVEL_TEXT = ("Partial. Model: printer (all scalar types incl. time tags, range 
               "(C10_timetag_token_whole_seconds, C10_timetag_skip_whole_seconds; what follows must not be a clock time, ':' or '.'), "
               "and with the lossless option of every time tag whose fraction fits a float, the value taken exactly from the "
               "hexadecimal float (C10_timetag_token_fraction, C10_timetag_skip_fraction); such a text is a token (tokof) of the "
-              "whole-function recognisers (C10_timetag_tokof_clock for a clock time other than 00:00:00, C10_timetag_tokof_fraction), "
+              "whole-function recognisers (C10_timetag_tokof_clock for a clock time other than 00:00:00, C10_timetag_tokof_fraction, C10_timetag_tokof_immediately), "
               "so texts mixing time tags with the other proved tokens under any white space are counted and scanned back "
               "(C10_linebreak_transparent, C10_timetag_in_list). Not proved: a date standing alone as a token of lang, VTm in the "
               "printer-side list theorems (tied). Range conversion: "
